@@ -237,6 +237,7 @@ void SessionManager::register_peer_key(const PeerId& peer_id, const std::array<s
 
     const auto it = sessions_.find(peer_key_string(peer_id));
     if (it != sessions_.end() && it->second) {
+        std::scoped_lock key_lock(it->second->key_mutex);
         it->second->key = key;
     }
 }
@@ -360,7 +361,10 @@ bool SessionManager::send(const PeerId& peer_id, std::span<const std::uint8_t> p
     }
 
     crypto::Key key{};
-    key.bytes = session->key;
+    {
+        std::scoped_lock key_lock(session->key_mutex);
+        key.bytes = session->key;
+    }
 
     crypto::Nonce nonce{};
     {
@@ -819,7 +823,10 @@ void SessionManager::receive_loop(const PeerId& peer_id, std::shared_ptr<Session
         }
 
         crypto::Key key{};
-        key.bytes = session->key;
+        {
+            std::scoped_lock key_lock(session->key_mutex);
+            key.bytes = session->key;
+        }
 
         crypto::Nonce nonce{};
         std::copy(nonce_buffer.begin(), nonce_buffer.end(), nonce.bytes.begin());
